@@ -86,10 +86,15 @@ def rule_r2(ctx):
     for b in f.blocks.values():
         c = f.cond(b.id) if b.term and len(b.succs) == 2 else None
         if c is not None and c.get("k") == "bin" and c["op"] in ("!=", "==") and c["lhs"].get("k") == "bin" and \
-                c["lhs"]["op"] == "&" and const_of(c["lhs"]["rhs"]) == 0xc0 and const_of(c["rhs"]) == 0x80:
+                c["lhs"]["op"] == "&" and const_of(c["rhs"]) == 0x80 and const_of(c["lhs"]["rhs"]) is not None:
+            if const_of(c["lhs"]["rhs"]) != 0xc0:
+                ctx.fail(r, f, "continuation byte tested with mask %#x" % const_of(c["lhs"]["rhs"]), f.line_of(b.id, 0),
+                         "a continuation byte must satisfy (x & 0xc0) == 0x80; the test masks with %#x, so bytes 0xc0..0xff are "
+                         "accepted in a continuation position and malformed UTF-8 passes" % const_of(c["lhs"]["rhs"]))
+                continue
             tests.append((b.id, 1 if c["op"] == "!=" else 0, c["lhs"]["lhs"]))
     uses = [s for s in f.sites() if s.node.get("k") == "bin" and s.node["op"] == "&" and const_of(s.node["rhs"]) == 0x3f]
-    if not tests or not uses:
+    if (not tests and not r.findings) or not uses:
         raise AnalysisBroken("url_utf8_validate: continuation test / extraction not found")
     for b, ok_edge, byte in tests:
         cur = apath(byte)
